@@ -236,6 +236,7 @@ def run(repo: Repo, R: Report) -> None:
     _no_run_carried_instance_state(repo, R)
     _no_shared_mutable_tables(repo, R)
     _sinks_not_stricter_than_sanitiser(repo, R, drivers)
+    _caller_data_reaches_sink_sanitised(repo, R)
     # the caller-owned canonical spec is not mutated (pipeline_id would depend on history)
     from . import c04
 
@@ -1209,3 +1210,96 @@ def _sinks_not_stricter_than_sanitiser(repo: Repo, R: Report, drivers: Set[str])
                 R.check(not open_r, r, rel, f"{cls.name}.{m}", f"{cls.name}.{m} raises nothing of its own", (f"`{norm(open_r[0])[:70]}` raises out of a driver callback that execute() invokes inside the node's try: the exception replaces the result / the exception of the run (traced and untraced runs differ)" if open_r else ""), open_r[0].lineno if open_r else f.lineno)
     if n_cb == 0:
         raise AnalysisError("no trace driver class with callbacks found under semantiva/trace/drivers/")
+
+
+# ---------------------------------------------------------------------------------------------------------
+# D1: caller-supplied mappings handed to a driver callback are made JSON-safe before they are encoded
+# ---------------------------------------------------------------------------------------------------------
+_LEAF_SANITISERS = {"serialize_json_safe", "safe_repr", "str", "repr"}
+
+
+def _caller_data_reaches_sink_sanitised(repo: Repo, R: Report) -> None:
+    r = R.rule("C10-D1-caller-data-sanitised", "a value that execute() takes from the caller's run metadata (run_space_context, ...) and hands to a trace-driver callback is encoded only after every leaf went through a sanitiser (or the callback's failure fallback drops it): such values are arbitrary Python objects (a YAML date, a numpy scalar), and an encoder failure in on_pipeline_start - which execute() calls outside any try - makes the traced run raise where the untraced run returns", 1)
+    ex = nfunc(repo, ORCH, EXECUTE)  # helpers that assemble the keyword arguments are inlined
+    meta_param = next((a.arg for a in ex.args.args + ex.args.kwonlyargs if a.arg == "run_metadata"), None)
+
+    def caller_data(e: Optional[ast.AST], depth: int = 0) -> bool:
+        """*e* is (derived from) a value stored in the caller's run metadata."""
+        if e is None or depth > 4:
+            return False
+        for x in ast.walk(e):
+            if isinstance(x, ast.Subscript) or (isinstance(x, ast.Call) and call_attr(x) == "get"):
+                base = x.value if isinstance(x, ast.Subscript) else x.func.value
+                d = dotted_name(base) or ""
+                if d == meta_param or "run_metadata" in d:
+                    return True
+            if isinstance(x, ast.Name) and x is not e and False:
+                pass
+        names = {x.id for x in ast.walk(e) if isinstance(x, ast.Name)}
+        return any(caller_data(v, depth + 1) for nm in names for v in assigned_value(ex, nm))
+
+    # keyword names under which caller data reaches a driver callback (directly, or through a ** mapping filled by key)
+    passed: Dict[str, Set[str]] = {}
+    for c in calls_in(ex):
+        meth = call_attr(c)
+        if meth not in _orch.DRIVER_METHODS:
+            continue
+        for k in c.keywords:
+            if k.arg is not None and caller_data(k.value):
+                passed.setdefault(meth, set()).add(k.arg)
+            elif k.arg is None and isinstance(k.value, ast.Name):
+                for n in walk_no_nested(ex):
+                    if isinstance(n, ast.Assign) and len(n.targets) == 1 and isinstance(n.targets[0], ast.Subscript) and dotted_name(n.targets[0].value) == k.value.id and isinstance(n.targets[0].slice, ast.Constant) and caller_data(n.value):
+                        passed.setdefault(meth, set()).add(n.targets[0].slice.value)
+    if not passed:
+        raise AnalysisError("execute: no value taken from the run metadata reaches a trace-driver callback (anchor vanished)")
+    n = 0
+    for rel in sorted(m for m in repo.modules if m.startswith("semantiva/trace/drivers/")):
+        mod = repo.module(rel)
+        for cls in [c for c in mod.tree.body if isinstance(c, ast.ClassDef)]:
+            for meth, params in sorted(passed.items()):
+                f0 = next((st for st in cls.body if isinstance(st, FuncNode) and st.name == meth), None)
+                if f0 is None:
+                    continue
+                f = nfunc(repo, rel, f"{cls.name}.{meth}")
+                annots = {a.arg: (ast.unparse(a.annotation) if a.annotation is not None else "") for a in f.args.args + f.args.kwonlyargs}
+                dumps = [c for c in calls_in(f) if (call_name(c) or "") in ("json.dumps", "json.dump")]
+                if not dumps:
+                    continue
+                for p in sorted(params):
+                    if p not in annots:
+                        continue
+                    scalar = annots[p].replace(" ", "") in ("str", "int", "float", "bool", "str|None", "int|None", "float|None", "bool|None", "Optional[str]", "Optional[int]")
+                    if scalar:
+                        continue
+                    n += 1
+                    # every occurrence of the parameter that flows into the record is wrapped by a sanitiser, leaf by leaf
+                    raw_uses = []
+                    for x in walk_no_nested(f):
+                        if isinstance(x, ast.Name) and x.id == p and isinstance(x.ctx, ast.Load):
+                            anc = list(ancestors(x))
+                            stmt = next((a for a in anc if isinstance(a, ast.stmt)), None)
+                            if isinstance(stmt, (ast.If, ast.While, ast.Assert)) and any(x is y for y in ast.walk(stmt.test)):
+                                continue  # presence test
+                            if any(isinstance(a, ast.Call) and ((call_name(a) or "").split(".")[-1] in _LEAF_SANITISERS) for a in anc):
+                                continue
+                            # iterated to sanitise the leaves: `for k, v in p.items()` / comprehension over p.items()
+                            it = next((a for a in anc if isinstance(a, (ast.comprehension, ast.For)) and any(x is y for y in ast.walk(a.iter))), None)
+                            if it is not None:
+                                tgt_names = {y.id for y in ast.walk(it.target) if isinstance(y, ast.Name)}
+                                holder = next((a for a in anc if isinstance(a, (ast.DictComp, ast.ListComp, ast.For))), None)
+                                vals = []
+                                if isinstance(holder, ast.DictComp):
+                                    vals = [holder.value]
+                                elif isinstance(holder, ast.For):
+                                    vals = [s.value for s in ast.walk(holder) if isinstance(s, ast.Assign)]
+                                raw_leaf = any(isinstance(y, ast.Name) and y.id in tgt_names and not any(isinstance(a2, ast.Call) and (call_name(a2) or "").split(".")[-1] in _LEAF_SANITISERS for a2 in ancestors(y) if any(a2 is z for v in vals for z in ast.walk(v))) for v in vals for y in ast.walk(v) if isinstance(y, ast.Name) and y.id in tgt_names and y.id != next(iter(tgt_names), ""))
+                                if vals and not raw_leaf:
+                                    continue
+                            raw_uses.append(x)
+                    # or the failure fallback of the encoder drops the key
+                    dropped = any(isinstance(c, ast.Call) and call_attr(c) == "pop" and c.args and isinstance(c.args[0], ast.Constant) and c.args[0].value == p and any(isinstance(a, ast.ExceptHandler) for a in ancestors(c)) for c in ast.walk(f))
+                    ok = not raw_uses or dropped
+                    R.check(ok, r, rel, f"{cls.name}.{meth}", f"`{p}` (caller's run metadata) is sanitised before encoding", f"`{norm(stmt_of(raw_uses[0]))[:80] if raw_uses else ''}` puts the caller-supplied `{p}` into the record as it is: a value the JSON encoder rejects (a date from YAML, a numpy scalar, a set) makes `{meth}` raise - execute() calls it unguarded, so the traced run fails where the untraced run succeeds", raw_uses[0].lineno if raw_uses else f0.lineno)
+    if n == 0:
+        raise AnalysisError("no trace-driver callback receives the run-metadata values under the names execute() uses")
